@@ -1,19 +1,27 @@
 // C01 harness for exporter/exporterhelper/internal (injected by overlay; package-internal).
 // The persistent queue keeps a request whose hand-off ended with a SHUTDOWN error (experr.IsShutdownErr)
-// and deletes it after any other outcome.  This harness drives the REAL retrySender.Send to each of its
-// ends and records the class the queue's Done callback will see (0 ok, 1 failed, 2 shutdown), also through
-// extra fmt.Errorf("%w") layers as the senders above it add them.
+// and deletes it after any other outcome.  This harness drives the REAL retrySender through scenarios of
+// 1-3 CONCURRENT Sends and one Shutdown placed, for each Send independently, before the Send starts, while
+// its export call is in progress, while it sits in the back-off, or never; the export function is scripted
+// per attempt (ok / permanent / retryable; a retryable attempt is followed by a 1 ms back-off, the last
+// scripted one by a one-hour back-off requested through NewThrottleRetry).  All synchronisation is by
+// channels; nothing depends on timing.
 //
-// Case term (Coq, type vcase of C01/Harness.v):  CRetry scenario wraps class
-//   scenario: 0 success | 1 permanent error | 2 no more retries (max elapsed time) | 3 context cancelled
-//             during the back-off | 4 sender shut down during the back-off
-// Direct oracle: scenario 4 is reported as a shutdown error, no other scenario is.
+// Case term (Coq, type vcase of C01/Harness.v):  CSend results stop tail class attempts
+//   results: per attempt 0 ok | 1 permanent | 2 retryable;  stop: None | Some (attempts started when Shutdown
+//   was called);  tail: 2 max elapsed time | 3 context cancelled;  class of the returned error as the queue's
+//   Done callback sees it (0 ok, 1 failed, 2 shutdown), also through extra fmt.Errorf("%w") layers;
+//   attempts: number of export calls made for this Send.
+// Direct oracle: a Send whose attempts all failed with retryable errors and that was overtaken by the
+// Shutdown returns a shutdown error; no Send returns one without a Shutdown; no Send makes an unscripted
+// attempt (in particular more than one after the Shutdown); every Send returns.
 package internal
 
 import (
 	"context"
 	"errors"
 	"fmt"
+	"sync"
 	"testing"
 	"time"
 
@@ -27,92 +35,295 @@ import (
 	"go.opentelemetry.io/collector/exporter/exportertest"
 )
 
-func vRetryScenario(scenario int) (error, bool) {
+const (
+	vPhNone     = 0 // the Send ends by itself (or by its context / retry budget); no Shutdown before it returns
+	vPhBefore   = 1 // Send is called after Shutdown
+	vPhInExport = 2 // Shutdown while the last scripted attempt is inside the export call
+	vPhBackoff  = 3 // Shutdown after the last scripted attempt failed (the Send is in, or about to enter, the back-off)
+)
+
+type vSendPlan struct {
+	rs    []int
+	phase int
+	tail  int // 2 max elapsed, 3 ctx cancelled (reached only in phase none with a retryable last attempt)
+
+	// run state
+	mu        sync.Mutex
+	attempts  int
+	inExport  chan struct{} // the blocked last attempt has started
+	release   chan struct{} // lets the blocked attempt return
+	lastDone  chan struct{} // the last scripted attempt is about to return
+	unscripted int
+	res       chan error
+	cancel    context.CancelFunc
+}
+
+func vWait(ch <-chan struct{}, what string) string {
+	select {
+	case <-ch:
+		return ""
+	case <-time.After(60 * time.Second):
+		return what
+	}
+}
+
+// runs one scenario; returns per plan (error, hung) and a scenario-level problem
+func vRunRetryScenario(plans []*vSendPlan, maxElapsed bool) (errs []error, hung []bool, problem string) {
 	cfg := configretry.NewDefaultBackOffConfig()
-	cfg.InitialInterval = time.Hour // the back-off never elapses by itself
-	cfg.MaxInterval = 2 * time.Hour
+	cfg.InitialInterval = time.Millisecond
+	cfg.MaxInterval = time.Millisecond
+	cfg.Multiplier = 1
 	cfg.RandomizationFactor = 0
 	cfg.MaxElapsedTime = 0
-	if scenario == 2 {
+	if maxElapsed {
 		cfg.MaxElapsedTime = time.Nanosecond
 	}
-	called := make(chan struct{}, 16)
-	next := sender.NewSender(func(context.Context, request.Request) error {
-		called <- struct{}{}
-		switch scenario {
+	next := sender.NewSender(func(_ context.Context, req request.Request) error {
+		fr, ok := req.(*requesttest.FakeRequest)
+		if !ok || fr.Items < 1 || fr.Items > len(plans) {
+			return consumererror.NewPermanent(errors.New("harness: unknown request"))
+		}
+		p := plans[fr.Items-1]
+		p.mu.Lock()
+		k := p.attempts
+		p.attempts++
+		p.mu.Unlock()
+		if k >= len(p.rs) {
+			p.mu.Lock()
+			p.unscripted++
+			p.mu.Unlock()
+			return consumererror.NewPermanent(errors.New("harness: unscripted attempt")) // ends the Send
+		}
+		last := k == len(p.rs)-1
+		if last && p.phase == vPhInExport {
+			close(p.inExport)
+			<-p.release
+		}
+		if last {
+			defer close(p.lastDone)
+		}
+		switch p.rs[k] {
 		case 0:
 			return nil
 		case 1:
 			return consumererror.NewPermanent(errors.New("bad data"))
 		default:
+			if last {
+				return NewThrottleRetry(errors.New("transient"), time.Hour) // this back-off never elapses by itself
+			}
 			return errors.New("transient")
 		}
 	})
 	rs := newRetrySender(cfg, exportertest.NewNopSettings(exportertest.NopType), next)
 	if err := rs.Start(context.Background(), componenttest.NewNopHost()); err != nil {
-		return err, false
+		return nil, nil, "Start: " + err.Error()
 	}
-	ctx, cancel := context.WithCancel(context.Background())
-	defer cancel()
-	res := make(chan error, 1)
-	go func() { res <- rs.Send(ctx, &requesttest.FakeRequest{Items: 1}) }()
-	select {
-	case <-called:
-	case <-time.After(60 * time.Second):
-		return nil, false
+	launch := func(i int) {
+		p := plans[i]
+		ctx, cancel := context.WithCancel(context.Background())
+		p.cancel = cancel
+		go func() { p.res <- rs.Send(ctx, &requesttest.FakeRequest{Items: i + 1}) }()
 	}
-	stopped := false
-	switch scenario {
-	case 3:
-		cancel()
-	case 4:
+	errs = make([]error, len(plans))
+	hung = make([]bool, len(plans))
+	got := make([]bool, len(plans))
+	collect := func(i int, d time.Duration) {
+		if got[i] {
+			return
+		}
+		select {
+		case errs[i] = <-plans[i].res:
+		case <-time.After(d):
+			// does not return: cancel its context so that it unwinds (reported as a hang)
+			hung[i] = true
+			plans[i].cancel()
+			select {
+			case <-plans[i].release:
+			default:
+				close(plans[i].release)
+			}
+			errs[i] = <-plans[i].res
+		}
+		got[i] = true
+	}
+	anyStop := false
+	for i, p := range plans {
+		p.inExport, p.release, p.lastDone, p.res = make(chan struct{}), make(chan struct{}), make(chan struct{}), make(chan error, 1)
+		if p.phase != vPhNone {
+			anyStop = true
+		}
+		if p.phase != vPhBefore {
+			launch(i)
+		}
+	}
+	// bring every launched Send to its synchronisation point
+	for i, p := range plans {
+		switch p.phase {
+		case vPhNone:
+			if w := vWait(p.lastDone, "last attempt of a self-ending Send"); w != "" {
+				problem = w
+			}
+			if p.rs[len(p.rs)-1] == 2 && p.tail == 3 {
+				p.cancel()
+			}
+			collect(i, 30*time.Second)
+		case vPhInExport:
+			if w := vWait(p.inExport, "blocked attempt did not start"); w != "" {
+				problem = w
+			}
+		case vPhBackoff:
+			if w := vWait(p.lastDone, "last attempt before the back-off"); w != "" {
+				problem = w
+			}
+		}
+	}
+	if anyStop {
 		_ = rs.Shutdown(context.Background())
-		stopped = true
 	}
-	var err error
-	select {
-	case err = <-res:
-	case <-time.After(60 * time.Second):
-		return nil, false
+	for i, p := range plans {
+		if p.phase == vPhBefore {
+			launch(i)
+		}
 	}
-	if !stopped {
+	for _, p := range plans {
+		if p.phase == vPhInExport {
+			close(p.release)
+		}
+	}
+	for i := range plans {
+		collect(i, 20*time.Second)
+	}
+	if !anyStop {
 		_ = rs.Shutdown(context.Background())
 	}
-	return err, true
+	for _, p := range plans {
+		p.cancel()
+	}
+	return errs, hung, problem
 }
 
 func TestVerifC01Retry(t *testing.T) {
 	out := vOpen()
 	defer out.Close()
 	rng := vNewRand(7)
-	n := vBudget(30, 5)
-	for i := 0; i < n; i++ {
-		scenario := i % 5
-		if i >= 10 {
-			scenario = rng.Intn(5)
+	n := vBudget(70, 6)
+	hangs := 0
+	for sc := 0; sc < n && hangs < 2; sc++ {
+		maxElapsed := rng.Intn(8) == 0
+		nplans := 1 + rng.Intn(3)
+		if maxElapsed {
+			nplans = 1
 		}
-		wraps := rng.Intn(3)
-		err, ok := vRetryScenario(scenario)
-		if !ok {
-			out.Oracle("retry-sender-does-not-return", vNat(scenario), "Send did not return within the deadline")
+		plans := make([]*vSendPlan, nplans)
+		for i := range plans {
+			p := &vSendPlan{tail: 3}
+			switch {
+			case maxElapsed:
+				p.rs, p.phase, p.tail = []int{2}, vPhNone, 2
+				if rng.Intn(2) == 0 {
+					p.phase = vPhBefore // budget exhausted on the first failure, shutdown or not: a final failure
+				}
+			default:
+				ln := 1 + rng.Intn(3)
+				for k := 0; k < ln-1; k++ {
+					p.rs = append(p.rs, 2)
+				}
+				p.rs = append(p.rs, rng.Pick(2, 2, 6))
+				if p.rs[ln-1] == 2 {
+					p.phase = rng.Pick(2, 2, 4, 4) // none (ctx) / before / in export / back-off
+				} else {
+					p.phase = rng.Pick(3, 1) // ends by itself, or is sent after the shutdown
+				}
+				if p.phase == vPhBefore {
+					p.rs = p.rs[len(p.rs)-1:]
+				}
+			}
+			plans[i] = p
+		}
+		// the first scenarios are fixed: the three placements alone, then two and three Sends in back-off at once
+		switch sc {
+		case 0:
+			plans = []*vSendPlan{{rs: []int{2}, phase: vPhBackoff, tail: 3}}
+		case 1:
+			plans = []*vSendPlan{{rs: []int{2}, phase: vPhInExport, tail: 3}}
+		case 2:
+			plans = []*vSendPlan{{rs: []int{2}, phase: vPhBefore, tail: 3}}
+		case 3:
+			plans = []*vSendPlan{{rs: []int{2}, phase: vPhBackoff, tail: 3}, {rs: []int{2, 2}, phase: vPhBackoff, tail: 3}}
+		case 4:
+			plans = []*vSendPlan{{rs: []int{2}, phase: vPhBackoff, tail: 3}, {rs: []int{2}, phase: vPhInExport, tail: 3}, {rs: []int{2}, phase: vPhBefore, tail: 3}}
+		}
+		if len(plans) == 1 && plans[0].tail == 2 {
+			maxElapsed = true
+		} else {
+			maxElapsed = false
+		}
+		anyStop := false
+		for _, p := range plans {
+			if p.phase != vPhNone {
+				anyStop = true
+			}
+		}
+		errs, hung, problem := vRunRetryScenario(plans, maxElapsed)
+		desc := fmt.Sprintf("scenario=%d", sc)
+		if problem != "" {
+			out.Oracle("retry-scenario-stuck", desc, problem)
+			hangs++
 			continue
 		}
-		for w := 0; w < wraps && err != nil; w++ {
-			err = fmt.Errorf("layer %d: %w", w, err)
-		}
-		cls := 1
-		switch {
-		case err == nil:
-			cls = 0
-		case experr.IsShutdownErr(err):
-			cls = 2
-		}
-		term := "CRetry " + vNat(scenario) + " " + vNat(wraps) + " " + vNat(cls)
-		out.Case(true, term)
-		out.Stat(fmt.Sprintf("retry_scenario_%d", scenario), 1)
-		if (scenario == 4) != (cls == 2) {
-			out.Oracle("shutdown-interrupted-retry-misreported", term,
-				fmt.Sprintf("scenario=%d class=%d (2 = shutdown error, the queue keeps the request)", scenario, cls))
+		out.Stat(fmt.Sprintf("retry_concurrent_sends_%d", len(plans)), 1)
+		for i, p := range plans {
+			err := errs[i]
+			wraps := rng.Intn(3)
+			for w := 0; w < wraps && err != nil; w++ {
+				err = fmt.Errorf("layer %d: %w", w, err)
+			}
+			cls := 1
+			switch {
+			case err == nil:
+				cls = 0
+			case experr.IsShutdownErr(err):
+				cls = 2
+			}
+			stop := "None"
+			stopped := false
+			if anyStop && p.phase != vPhNone {
+				stopped = true
+				s := len(p.rs)
+				if p.phase == vPhBefore {
+					s = 0
+				}
+				stop = "(Some " + vNat(s) + ")"
+			}
+			rsT := make([]string, len(p.rs))
+			allRetryable := true
+			for k, r := range p.rs {
+				rsT[k] = vNat(r)
+				if r != 2 {
+					allRetryable = false
+				}
+			}
+			p.mu.Lock()
+			attempts, unscripted := p.attempts, p.unscripted
+			p.mu.Unlock()
+			term := "CSend " + vList(rsT) + " " + stop + " " + vNat(p.tail) + " " + vNat(cls) + " " + vNat(attempts)
+			out.Case(true, term)
+			out.Stat(fmt.Sprintf("retry_phase_%d", p.phase), 1)
+			out.Stat(fmt.Sprintf("retry_class_%d", cls), 1)
+			detail := fmt.Sprintf("%s send=%d/%d phase=%d results=%v class=%d attempts=%d", desc, i, len(plans), p.phase, p.rs, cls, attempts)
+			if hung[i] {
+				out.Oracle("retry-send-does-not-return-after-shutdown", term, detail)
+				hangs++
+			}
+			if unscripted > 0 {
+				out.Oracle("retry-attempt-after-shutdown", term, detail+fmt.Sprintf(" unscripted=%d", unscripted))
+			}
+			if stopped && allRetryable && p.tail != 2 && cls != 2 {
+				out.Oracle("shutdown-interrupted-retry-misreported", term, detail+" (2 = shutdown error, the queue keeps the request)")
+			}
+			if !stopped && cls == 2 {
+				out.Oracle("shutdown-error-without-shutdown", term, detail)
+			}
 		}
 	}
 }
